@@ -274,4 +274,13 @@ pub fn generate(thorough: bool, seed: u64, em: &mut Emitter) {
         em.case("yaml", json!({"doc": doc, "claims": claims, "paths": [], "expect_ok": "if_ok_then_untagged",
                                "nontrivial": true, "tag": "tagged_container_item_with_tags_inside"}));
     }
+    // a key that carries some OTHER tag than !sd is still a key of the claims (the conversion drops the tags of keys): an !sd
+    // tag below it is a tagged node like any other
+    for (doc, claims, paths) in [
+        ("x: 1\n!foo a:\n  y: 2\n  !sd b: 1\n", json!({"x": 1, "a": {"y": 2, "b": 1}}), vec!["/a/b"]),
+        ("!foo a:\n  - !sd US\n  - DE\nz: 0\n", json!({"a": ["US", "DE"], "z": 0}), vec!["/a/0"]),
+        ("k:\n  !bar 7:\n    !sd c: x\n    d: y\n  e: 1\n", json!({"k": {"7": {"c": "x", "d": "y"}, "e": 1}}), vec!["/k/7/c"]),
+    ] {
+        em.case("yaml", json!({"doc": doc, "claims": claims, "paths": paths, "expect_ok": true, "nontrivial": true, "tag": "tag_below_foreign_tagged_key"}));
+    }
 }
